@@ -6,7 +6,8 @@ import RpmVerif.Gen.CpioConsts
 
 Mirrors the code as it is in /repo now (after `fix: eb7114a` — stripped header padding is read, data is
 padded in large-file mode —, `fix: 1c3a5eb` — name length checked before the allocation, stripped
-index bounds-checked — and `fix: c887b00` — an archive ending inside an entry's data is an error).  Streams are `Bytes` (what is still unread); `read_exact` on a short stream is
+index bounds-checked —, `fix: c887b00` — an archive ending inside an entry's data is an error — and
+`fix: 3cfa908` — the iterator attaches the metadata of the header file the entry itself designates).  Streams are `Bytes` (what is still unread); `read_exact` on a short stream is
 `.err "eof"` (`takeN`), `read_to_end` through `Reader::read` is `List.take` (it stops at the end of the
 stream; `finish` then reports the shortfall).  Numbers are `Nat`; all header fields are `u32` in the code, the theorems carry
 `< 2^32` hypotheses where `{:08x}` must produce exactly 8 digits.
@@ -236,47 +237,62 @@ def readData (fileSize : Nat) (r : Bytes) : Out (Bytes × Bytes) := do
   let (_, r) ← takeN (padLen fileSize) (r.drop fileSize)
   pure (content, r)
 
+/-! ## which header file an archive entry belongs to (`Reader::file_index`) -/
+
+/-- the header path a cpio entry name stands for: `match name.strip_prefix('.') { Some(rest) if
+rest.starts_with('/') => rest, _ => name }` — cpio names are `"." + path` (`./usr/bin/x`); source
+packages use the plain path (`x.spec`), and a plain name may itself start with a dot (`.hidden`) -/
+def namePath : Bytes → Bytes
+  | 46 :: 47 :: r => 47 :: r
+  | n => n
+
+/-- `Reader::file_index(file_entries)`, `paths` = `file_entries.map(|e| e.path)` (the bytes of the
+`PathBuf`; `OsStr == str` compares bytes): a cpio entry designates the FIRST header file whose path is
+the one its name stands for (`iter().position(..)`), a stripped entry the file at the index it carries -/
+def fileIndex (paths : List Bytes) : PayloadEntry → Option Nat
+  | .cpio e => if paths.idxOf (namePath e.name) < paths.length then some (paths.idxOf (namePath e.name)) else none
+  | .stripped idx => if idx < paths.length then some idx else none
+
 /-- `FileIterator` with `count = entries.len() - fuel`: what the successive `next()` calls return, up
-to and including the first `Some(Err(_))` (after an I/O error the position of the stream is not
-defined; the harness stops there as well).  The i-th element is the content that the iterator pairs
-with `file_entries[i]` — by position.  The archive entry it came from is kept for the pairing
-theorems. -/
-def iterateE (sizes : List Nat) : Nat → Bytes → List (Out (PayloadEntry × Bytes))
+to and including the first `Some(Err(_))` (after an error the position of the stream is not
+defined; the harness stops there as well).  An item is (index of the header file whose metadata is
+attached, the archive entry, the content).  Since `fix: 3cfa908` the index is the one the ENTRY designates
+(`fileIndex`: by name for newc / crc entries, the carried index for stripped ones), not the position of
+the entry in the archive; an entry that designates no header file is an error item. -/
+def iterateE (paths : List Bytes) (sizes : List Nat) : Nat → Bytes → List (Out (Nat × PayloadEntry × Bytes))
   | 0, _ => []
   | fuel + 1, bs =>
     match readerNew sizes bs with
     | .ok (e, fileSize, r) =>
       if isTrailer e then [] else
-      match readData fileSize r with
-      | .ok (content, r') => .ok (e, content) :: iterateE sizes fuel r'
-      | .err c => [.err c]
-      | .panic s => [.panic s]
+      match fileIndex paths e with
+      | none => [.err "no-such-file"]
+      | some i =>
+        match readData fileSize r with
+        | .ok (content, r') => .ok (i, e, content) :: iterateE paths sizes fuel r'
+        | .err c => [.err c]
+        | .panic s => [.panic s]
     | .err c => [.err c]
     | .panic s => [.panic s]
 
-/-- the contents only -/
-def iterateFrom (sizes : List Nat) (fuel : Nat) (bs : Bytes) : List (Out Bytes) :=
-  (iterateE sizes fuel bs).map (Out.map (·.2))
+/-- metadata index and content only -/
+def iterateFrom (paths : List Bytes) (sizes : List Nat) (fuel : Nat) (bs : Bytes) : List (Out (Nat × Bytes)) :=
+  (iterateE paths sizes fuel bs).map (Out.map fun x => (x.1, x.2.2))
 
-/-- `Package::files()` on the decompressed archive: one `next()` per header file entry -/
-def iterate (archive : Bytes) (sizes : List Nat) : List (Out Bytes) := iterateFrom sizes sizes.length archive
+/-- `Package::files()` on the decompressed archive: at most one `next()` per header file entry
+(`paths` and `sizes` are the two columns of `file_entries`) -/
+def iterate (archive : Bytes) (paths : List Bytes) (sizes : List Nat) : List (Out (Nat × Bytes)) :=
+  iterateFrom paths sizes sizes.length archive
 
 /-- `Package::files()` with the decompressor as a parameter -/
-def files (decompress : Bytes → Out Bytes) (payload : Bytes) (sizes : List Nat) : Out (List (Out Bytes)) := do
+def files (decompress : Bytes → Out Bytes) (payload : Bytes) (paths : List Bytes) (sizes : List Nat) :
+    Out (List (Out (Nat × Bytes))) := do
   let archive ← decompress payload
-  pure (iterate archive sizes)
+  pure (iterate archive paths sizes)
 
-/-! ## which header file an archive entry belongs to (pairing by path) -/
-
-/-- index of the header file an archive entry *names*: the position of its name among the header's cpio
-paths (`paths.length` when absent), or the explicit index of a stripped entry -/
-def entryIndex (paths : List Bytes) : PayloadEntry → Nat
-  | .cpio e => paths.idxOf e.name
-  | .stripped idx => idx
-
-/-- the cpio path an archive entry names -/
+/-- the header path an archive entry designates (spec side of `fileIndex`) -/
 def entryPath (paths : List Bytes) : PayloadEntry → Option Bytes
-  | .cpio e => some e.name
+  | .cpio e => some (namePath e.name)
   | .stripped idx => paths[idx]?
 
 end RpmVerif.Cpio
